@@ -124,7 +124,6 @@ func funcValueUses(p *core.Program, obj *types.Func) []ast.Node {
 // opaqueHelpers: private helpers that a rule treats as one step and therefore
 // wants to keep seeing as a call in flattened views (one line of reason each).
 var opaqueHelpers = map[string]string{
-	"pkg/namer.(*rawNamer).processName": "the argument rewriter is one step of the namer (C11.R6 / C03.R9 require every name to pass it; C15.R4 checks its body)",
 	"pkg/types.newPkg":       "the package-record constructor is a unit of C12/C13 (comment indexes, tables) and of the C13.R3 ordering rule (construction after registration)",
 }
 
@@ -165,7 +164,12 @@ func flatten(p *core.Program, f *core.Func) *core.Func {
 			}
 			// the import printer (by role): C01.R4/C04 treat the import block as one write step of the file
 			// writer; its body is checked on its own (C03.R2: one line per registered path, sorted)
-			return h == importPrinter(p)
+			if h == importPrinter(p) {
+				return true
+			}
+			// the argument rewriter of the namer (by role: the pkg/namer function that parses a name with ParseTypeRef) is
+			// one step of the namer: C11.R6 / C03.R9 require every name to pass it, C15.R4 checks its body
+			return h == namerRewriter(p)
 		}
 		p.OpaqueGeneral = func(h *core.Func) bool { return pipelineStage(p, h) }
 	}
